@@ -79,7 +79,12 @@ int main(void)
     int r;
 #if WHICH == 0
 #define NULLH ABT_THREAD_NULL
-    ABTI_thread_attr attr; int with_attr = nondet_bool();
+    ABTI_thread_attr attr;
+#ifdef WITH_ATTR
+    int with_attr = WITH_ATTR;
+#else
+    int with_attr = nondet_bool();
+#endif
     if (with_attr) { ABTI_thread_attr_init(&attr, NULL, 64, ABT_TRUE); attr.f_cb = mig_cb; attr.p_cb_arg = &G; }
     ABT_thread h = (ABT_thread)&G;
     r = ABT_thread_create((ABT_pool)&POOL, body, &G, with_attr ? (ABT_thread_attr)&attr : ABT_THREAD_ATTR_NULL, nondet_bool() ? &h : NULL);
@@ -104,7 +109,10 @@ int main(void)
         VR_ASSERT(h == NULLH || h == (void *)&G, "no dangling handle: NULL handle or untouched");
         if (map_fail) VR_WITNESS("unit map registration failed after everything else had succeeded");
 #endif
+        if (vr_failed) VR_WITNESS("an allocation failed");
+#if WHICH == 1 || (WHICH == 0 && (!defined(WITH_ATTR) || WITH_ATTR))
         if (vr_failed && vr_fail_at >= 1) VR_WITNESS("a later allocation failed");
+#endif
     } else {
         VR_ASSERT(!vr_failed && !unit_fail && !map_fail, "success only without failures");
         VR_ASSERT(pushes == 1 && vr_live >= 1, "the new unit is pushed exactly once");
